@@ -1023,19 +1023,49 @@ func (r *dtRun) everyDay(part, parts int) {
 	}
 }
 
+// everyTick: the ticks of a day (every stride-th one and both ends) as a server's TIME and DATETIME value,
+// decoded, and the decoded time encoded again
+func (r *dtRun) everyTick(part, parts, stride int) {
+	r.fixKey = "every-tick"
+	i := 0
+	for n := 0; n < 25920000; n++ {
+		if n%stride != 0 && n > 1000 && n < 25920000-1000 {
+			continue
+		}
+		i++
+		if i%parts != part {
+			continue
+		}
+		b := le.AppendUint32(nil, uint32(n))
+		r.dec(asetypes.TIME, b)
+		if v, e := safeGoValue(asetypes.TIME, b); e == "" {
+			r.rt(asetypes.TIME, v, 4)
+		}
+		if i%16 == 0 {
+			db := le.AppendUint32(le.AppendUint32(nil, uint32(int32(r.rng.Intn(3652059)-693595))), uint32(n))
+			r.dec(asetypes.DATETIME, db)
+		}
+	}
+}
+
 func dtMain(args []string) error {
 	fs := flag.NewFlagSet("dt", flag.ExitOnError)
 	out := fs.String("out", "dt.ndjson", "trace file")
 	seed := fs.Int64("seed", 1, "random seed")
 	thorough := fs.Bool("thorough", false, "thorough tier")
 	every := fs.String("everyday", "", "part/parts: every day of the years 1..9999 (calendar helpers, DATE)")
+	everyTick := fs.String("everytick", "", "part/parts/stride: the ticks of a day (TIME, DATETIME)")
 	fs.Parse(args)
 	tr, err := NewTracer(*out)
 	if err != nil {
 		return err
 	}
 	r := &dtRun{tr: tr, rng: rand.New(rand.NewSource(*seed)), thorough: *thorough}
-	if *every != "" {
+	if *everyTick != "" {
+		var part, parts, stride int
+		fmt.Sscanf(*everyTick, "%d/%d/%d", &part, &parts, &stride)
+		r.everyTick(part, parts, stride)
+	} else if *every != "" {
 		var part, parts int
 		fmt.Sscanf(*every, "%d/%d", &part, &parts)
 		r.everyDay(part, parts)
